@@ -114,6 +114,9 @@ def scenario(res, seq, use_vpc, segspec, pooling, failing, label=""):
         time = staticmethod(w.clock.time)
     saved = hashmod.time
     hashmod.time = _T
+    import pymemcache.client.ext.aws_ec_client as awsmod
+    saved_aws = awsmod.time
+    awsmod.time = _T          # the AWS client's constructor stamps _last_dead_check_time through its own module global
     try:
         w.advertise(seq[0])
         w.net.begin_call("ctor")
@@ -173,6 +176,7 @@ def scenario(res, seq, use_vpc, segspec, pooling, failing, label=""):
             v("config-connection-left-open", "the connection to the configuration endpoint is still open")
     finally:
         hashmod.time = saved
+        awsmod.time = saved_aws
     return viol, case
 
 
